@@ -138,6 +138,84 @@ def oracle_C29(run):
 
 
 # ---------------------------------------------------------------------------
+# C15  inbound header validation accepts exactly the conformant header blocks
+# ---------------------------------------------------------------------------
+KIND_OF_EVENT = {'RequestReceived': 'request', 'ResponseReceived': 'response', 'InformationalResponseReceived': 'informational',
+                 'TrailersReceived': 'trailers', 'PushedStreamReceived': 'push'}
+
+
+def oracle_C15(run):
+    """soundness on every history: a delivered header event carries a block that the HPACK decoder produced in this call
+    (after cookie joining / text decoding as configured), and with validate_inbound_headers on that block satisfies the
+    rule book (harness/rulebook.py) for the event's block type.  Completeness on annotated deliveries (op['expect'] =
+    {'kind', 'headers'}, written by the directed generator which knows the stream is in the right state): a conformant
+    block is delivered, a non-conformant one is refused with ProtocolError / PROTOCOL_ERROR."""
+    import rulebook
+    out = []
+    cfgs = {}
+    for i, (op, ol, ml, obs) in enumerate(run.log):
+        if op['op'] == 'new':
+            cfgs[op['c']] = op
+            continue
+        if obs is None or not is_recv(op):
+            continue
+        cfg = cfgs.get(conn_of(op)) or {}
+        vi, ni, enc = bool(cfg.get('vi', 1)), bool(cfg.get('ni', 1)), cfg.get('enc')
+        blocks = []
+        for r in obs.get('dec_recs') or []:
+            kind, v = r['res']
+            if kind == 'ok':
+                blocks.append([(bytes(h[0]), bytes(h[1])) for h in v])
+
+        def deliver(b):
+            hs = rulebook.join_cookies(b) if ni else list(b)
+            if enc:
+                try:
+                    hs = [(n.decode(enc), v.decode(enc)) for n, v in hs]
+                except UnicodeDecodeError:
+                    return None
+            return hs
+
+        delivered = []
+        for e in obs['raw_events']:
+            k = KIND_OF_EVENT.get(type(e).__name__)
+            if not k:
+                continue
+            got = [(h[0], h[1]) for h in e.headers]
+            delivered.append((k, got))
+            cands = [b for b in blocks if deliver(b) == got]
+            if not cands:
+                out.append(fail('delivered-headers-are-not-a-received-block', i, kind=k, got=repr(got)[:300]))
+                continue
+            if vi:
+                probs = [rulebook.block_problem(b, k) for b in cands]
+                if all(probs):
+                    out.append(fail('nonconformant-block-delivered', i, kind=k, rule=probs[0], block=repr(cands[0])[:300]))
+                    continue
+            if ni and any(n == b'cookie' for n, v in cands[0]):
+                from hpack.struct import NeverIndexedHeaderTuple
+                last = e.headers[-1]
+                if not isinstance(last, NeverIndexedHeaderTuple):
+                    out.append(fail('joined-cookie-not-never-indexed', i, kind=k))
+        a = op.get('expect')
+        if a and vi:
+            hs = [(bytes(n), bytes(v)) for n, v in a['headers']]
+            prob = rulebook.block_problem(hs, a['kind'])
+            want = deliver(hs)
+            r = res(obs)
+            was = any(k == a['kind'] and got == want for k, got in delivered)
+            if prob is None and want is not None and not was:
+                out.append(fail('conformant-block-refused', i, kind=a['kind'], res=obs['res'], block=repr(hs)[:300]))
+            elif prob is not None:
+                if was or r[0] == 'ok':
+                    if not any(f['idx'] == i for f in out):
+                        out.append(fail('nonconformant-block-not-refused', i, kind=a['kind'], rule=prob, block=repr(hs)[:300]))
+                elif not (r[0] == 'exc' and r[2] == 1 and is_protocol_error(obs)):
+                    out.append(fail('refusal-is-not-PROTOCOL_ERROR', i, kind=a['kind'], rule=prob, res=obs['res']))
+    return out
+
+
+# ---------------------------------------------------------------------------
 # C17  arbitrary bytes never produce a non-protocol exception
 # ---------------------------------------------------------------------------
 def oracle_C17(run):
@@ -1693,6 +1771,6 @@ def oracle_C25(run):
 
 ORACLES = {
     'C02': oracle_C02, 'C03': oracle_C03, 'C04': oracle_C04, 'C05': oracle_C05, 'C07': oracle_C07, 'C08': oracle_C08,
-    'C09': oracle_C09, 'C10': oracle_C10, 'C12': oracle_C12, 'C16': oracle_C16, 'C13': oracle_C13, 'C17': oracle_C17, 'C18': oracle_C18,
+    'C09': oracle_C09, 'C10': oracle_C10, 'C12': oracle_C12, 'C15': oracle_C15, 'C16': oracle_C16, 'C13': oracle_C13, 'C17': oracle_C17, 'C18': oracle_C18,
     'C19': oracle_C19, 'C21': oracle_C21, 'C22': oracle_C22, 'C24': oracle_C24, 'C25': oracle_C25, 'C26': oracle_C26, 'C27': oracle_C27, 'C29': oracle_C29,
 }
